@@ -261,7 +261,7 @@ def cosim_one(args):
                         except KeyError:
                             pass
                     else:
-                        ch.close(sc['code'], 'txt')
+                        ch.close(sc['code'], sc.get('text', 'txt').encode('utf-8') if sc.get('text_bytes') else sc.get('text', 'txt'))
                 except amqpstorm.AMQPError as why:
                     out.setdefault('close_errors', []).append(repr(why)[:60])
             def opener():
@@ -378,6 +378,9 @@ def check(rep):
                   'code': rng.choice([200, 320])}
             if rng.random() < 0.3:
                 sc.update({'via': rng.choice(['with', 'with-raise']), 'code': 200})
+            else:
+                # the reply text as text or already encoded, empty, non-ASCII
+                sc.update({'text': rng.choice(['txt', '', 'maintenance window', 'grüße €']), 'text_bytes': rng.random() < 0.5})
             if sc['closers'] == 1 and rng.random() < 0.35:
                 sc['crossing'] = True
                 sc['again'] = False
@@ -430,6 +433,9 @@ def check(rep):
                 rep.violation('C11/app-close-frame-count', '%d thread(s) closing one channel sent %d Channel.Close frames' % (sc['closers'], len(r['closes'])), replay)
             elif r['closes'][0][0] != sc['code']:
                 rep.violation('C11/app-close-code', 'Channel.Close carried %r' % (r['closes'][0],), replay)
+            elif not sc.get('via') and r['closes'][0][1] != sc.get('text', 'txt'):
+                rep.violation('C11/app-close-text', 'close(%d, %r) sent Channel.Close carrying the text %r' % (
+                    sc['code'], sc.get('text', 'txt').encode('utf-8') if sc.get('text_bytes') else sc.get('text', 'txt'), r['closes'][0][1]), replay)
             if len(r['closes']) == 1 and sorted(r['cancels']) != sorted('tag%d' % i for i in range(sc['consumers'])):
                 rep.violation('C11/consumers-not-cancelled', 'cancelled %r of %d consumers' % (r['cancels'], sc['consumers']), replay)
             if r['state'] != (0, 0, 0):
